@@ -176,6 +176,12 @@ func c08Check(c *Case) []Violation {
 }
 
 func c08CheckList(c *Case, list []c08Entry, draws []float64) (*c08Obs, []Violation) {
+	if draws != nil {
+		// the script answers 0.5 beyond its listed draws: spell that out, one draw per entry
+		for len(draws) < len(list) {
+			draws = append(append([]float64{}, draws...), 0.5)
+		}
+	}
 	req := c08Request(list, actSeed)
 	o, e := c08Observe(req, draws)
 	if o == nil {
@@ -433,6 +439,47 @@ func c08Run(s *Shard) {
 			}
 		}
 	})
+	// long lists (one bias may be listed many times): 63..70 and 130 entries, enabled / disabled / probability 0 mixed in;
+	// every clause of the per-list check at every position, scripted draws (0.5 from the fourth position on)
+	c08Cache = nil
+	for _, n := range []int{63, 64, 65, 70, 130} {
+		for pat := 0; pat < 4; pat++ {
+			if !s.Take() {
+				continue
+			}
+			list := make([]c08Entry, n)
+			for i := range list {
+				list[i] = c08Entry{Kind: 0, Prob: 0}
+				switch {
+				case pat == 1 && i%7 == 3:
+					list[i] = c08Entry{Kind: 0, Prob: 1} // probability 0 here and there
+				case pat == 2 && i%5 == 1:
+					list[i] = c08Entry{Kind: 1, Disabled: true, Prob: 2}
+				case pat == 3 && i%2 == 0:
+					list[i] = c08Entry{Kind: 0, Prob: 2} // 0.25 against the scripted 0.5: never from the fourth position on
+				}
+			}
+			draws := []float64{0, 0.25, 1 - 1.0/(1<<53)}
+			c := &Case{Prop: "C08", Kind: "list", Params: M{"list": list, "draws": draws}}
+			s.Evals++
+			s.Begin(c)
+			o, vs := c08CheckList(c, list, draws)
+			if o != nil && len(vs) == 0 && pat == 3 {
+				pos := 0
+				for _, x := range list {
+					if x.Disabled {
+						continue
+					}
+					if pos >= 3 && (x.Prob == 2) == o.fired[pos] {
+						vs = append(vs, viol(c, "C08/monotone", "position %d of %d with probability %v against the draw 0.5: fired=%v", pos, n, c08Probs[x.Prob], o.fired[pos]))
+						break
+					}
+					pos++
+				}
+			}
+			s.Report(vs)
+		}
+	}
 	// independence with the REAL generators: for a fixed biasApplyRandomSeed and fixed probabilities per position, which
 	// positions fire must not depend on what the other biases are or on their own seeds/props
 	realKinds := []M{
